@@ -66,7 +66,7 @@ def w2(tier):
 
 
 def shard(ctx):
-    from ..templates import any_template, t_dup_blocks, t_nested_windows, t_quasi
+    from ..templates import any_template, t_dup_blocks, t_nested_windows, t_quasi, t_alias_alloc
 
     def templ(rng):
         # storage-moving rewrites of duplicated blocks, nested windows and quasi-affine accesses are
@@ -74,9 +74,11 @@ def shard(ctx):
         r = rng.random()
         if r < 0.25:
             return t_dup_blocks(rng)
-        if r < 0.35:
+        if r < 0.30:
             return t_nested_windows(rng)
-        if r < 0.45:
+        if r < 0.42:
+            return t_alias_alloc(rng)
+        if r < 0.50:
             return t_quasi(rng)
         return any_template(rng)
 
